@@ -253,6 +253,11 @@ def run_tty_cases(res, exe, driver, cases, tmp, tag, compare_output=True, rng=No
             if a[:n] != b[:n] or len(a) != len(b):
                 res.disagreements.append({"stream": tag, "case": ml, "keys": c.keys, "impl": " ## ".join(impl),
                                           "model": " ## ".join(model)})
+            elif not compare_output and nw(impl)[:n] != nw(model)[:n]:
+                # states, arguments and results agree, only the bytes written differ: what the terminal shows is C02's
+                # business (its check runs these scripts with the output compared), not this property's
+                d = res.extra.setdefault("output_only_differences", {})
+                d[tag] = d.get(tag, 0) + 1
         out.append((c, impl, model, raw))
     res.evaluations += len(cases)
     return out
@@ -613,6 +618,9 @@ def c08_cases(tier, seed):
             hist = [rng.choice(pool) + rng.choice(["", "1", "2", "b"]) for _ in range(meta["max_hist"] + rng.randint(1, 6))]
         keys = list(rand_text(rng, 0, 3, ["a", "b", "q"]))
         for _ in range(rng.randint(1, 4)):
+            if rng.random() < 0.35:
+                # the search starts while an older entry is being browsed: it still starts from the newest entry
+                keys += [rng.choice(["Up", "C-p"])] * rng.randint(1, 3) + ([rng.choice(["Down", "C-n"])] if rng.random() < 0.3 else [])
             keys.append(rng.choice(["C-r", "C-r", "C-s"]))
             for _ in range(rng.randint(0, 8)):
                 r = rng.random()
